@@ -527,7 +527,7 @@ pub fn run_family(prop: &str, run_module: &str, seed: u64, tier: &str, out: &Pat
             let classic = (a + b) % 2 == 0 && !c11;
             push(&mut run, "gate_product2", product_case(&[a, b], classic, (a * 7 + b) % 3 != 0, Some((a + b) % 3)));
         } }
-        for _ in 0..3000 {
+        for _ in 0..1500 {
             let ps = [rp.below(80) as usize, rp.below(80) as usize, rp.below(80) as usize];
             let classic = rp.chance(1, 2) && !c11;
             push(&mut run, "gate_product3", product_case(&ps, classic, rp.chance(2, 3), Some(rp.below(4) as usize)));
@@ -549,7 +549,7 @@ pub fn run_family(prop: &str, run_module: &str, seed: u64, tier: &str, out: &Pat
         push(&mut run, "gate_product1", product_case(&[p], p % 2 == 0 && !c11, true, Some(0)));
     }
 
-    let scale = if big { 10 } else { 1 };
+    let scale = if big { 5 } else { 1 };
     let mut rr = r.fork(2);
     for _ in 0..(if c11 { 300 } else { 500 }) * scale {
         let mut cb = random_state_case(&mut rr);
@@ -568,7 +568,8 @@ pub fn run_family(prop: &str, run_module: &str, seed: u64, tier: &str, out: &Pat
     }
     run.note(format!("selection family for {}: real select_connection_idx on 0..4 real SrtlaConnection objects; \
         exp() recomputed with the same libm for every link and passed as oracle input", prop));
-    run.finish(16, 1_000_000)
+    // ~5 MB of coqc memory per KB of case text: keep shards small enough for 16 parallel evaluators
+    run.finish(16, 300_000)
 }
 
 pub fn run(seed: u64, tier: &str, out: &Path, _extra: &[(String, String)]) -> std::io::Result<()> {
